@@ -6,6 +6,7 @@ import itertools
 import random
 
 from .. import models
+from ..msgs import request_extras
 from ..oracles import C01Monitor, trace_summary
 from .. import wire
 from ..world import EnumPlan, InternalError, Plan, Runner, World
@@ -133,6 +134,7 @@ def gen_cases(tier, seed):
         cases.append({"cfg": cfg, "side": rng.choice("SD") if i % 3 else "S", "round": rng.randrange(0, 14), "wrong": rng.random() < 0.1,
                       "drop": None, "rand": seed * 1_000_003 + i})
         cfg["scribble_pdus"], cfg["scribble_user"] = rng.random() < 0.2, rng.random() < 0.2
+        cfg.update(request_extras(rng, 0.15))  # options and (binary) messages to user in the put request
         cases[-1]["pacing"] = rng.choice([None, None, {"src_calls": 3}, {"src_calls": 6}, {"dst_calls": 3}, {"src_calls": 2, "dst_calls": 2}, {"dst_idle": 2}, {"src_idle": 2, "dst_calls": 2}])
         if i % 3 == 1:
             # before (or in the same round as) the cancel the user issues a put request towards another entity: refused, no influence
@@ -314,6 +316,13 @@ def run_case(case):
                     # the receiver already holds the complete file and the EOF (no error): the transaction is complete in all but the
                     # pending notice of completion; finishing it with NO_ERROR is truthful and not judged
                     obs["eof_cancel_after_complete_eof_not_judged"] = obs.get("eof_cancel_after_complete_eof_not_judged", 0) + 1
+                    continue
+                end = idx_first_dfin if idx_first_dfin is not None else len(evs)
+                if any(x["kind"] == "action" and x["side"] == "D" and x.get("what") == "cancel" and x["res"] is True for x in evs[i:end]):
+                    # the user's own cancel request was accepted after the EOF (cancel) and before the notice of completion: the property's
+                    # sentence on cancel requests (judged above) and the one on a received EOF (cancel) ask for different conditions; the
+                    # library lets the request decide, which satisfies the former, and this clause is not applied
+                    obs["eof_cancel_followed_by_accepted_cancel_request_not_judged"] = obs.get("eof_cancel_followed_by_accepted_cancel_request_not_judged", 0) + 1
                     continue
                 obs["eof_cancel_accepted_by_receiver"] = obs.get("eof_cancel_accepted_by_receiver", 0) + 1
                 fins = [x for x in evs[i:] if x["kind"] == "ind_finished" and x["side"] == "D"]
